@@ -572,8 +572,8 @@ Section Core.
   Proof. induction 1; unfold sumw in *; cbn [fold_right]; lia. Qed.
   Lemma sumw_nonneg : forall pq, Forall wf_q pq -> 0 <= sumw pq.
   Proof.
-    induction 1 as [|q pq (L & Hv & _) _ IH]; unfold sumw in *; cbn [fold_right]; [lia|].
-    set (S := fold_right _ 0 pq) in *.
+    induction 1 as [|q pq (L & Hv & _) _ IH]; [unfold sumw; cbn [fold_right]; lia|]. unfold sumw in IH |- *. cbn [fold_right].
+    set (S := fold_right _ 0 pq) in IH |- *.
     unfold q_weight. rewrite (level_spec _ _ Hv).
     assert (HL : 0 <= L <= 31) by (destruct Hv as (HL & _); lia).
     pose proof (W_pos L HL). lia.
